@@ -28,7 +28,7 @@ LAZY_OBS = ["row", "elem", "rowscol", "ell", "empty", "maskidx", "subset", "padd
             "sort", "unique", "concatself", "where", "zeros", "astype", "equals", "save", "tonp", "argmax1", "rslice", "repr", "meta"]
 FLOOR_TAGS = ["dtype:float64", "dtype:int64"] + ["lazy-recv:" + o for o in LAZY_OBS] + ["lazy-operand:assign:u", "lazy-operand:sel:u", "lazy-operand:ufra:u", "lazy-operand:concat:w",
                                                      "depth>=3", "class:A", "class:B"]
-FLOOR_MONITORS = ["c06:L=M", "c06:F=M", "c06:L=F", "purity-tap"]
+FLOOR_MONITORS = ["c06:L=M", "c06:F=M", "c06:L=F", "purity-tap", "kept-results"]
 N_RANDOM = {"quick": 9000, "thorough": 200000}
 
 
